@@ -64,6 +64,27 @@ def whole_program_mutants():
     out.append(({"name": "datum_is_variant_prop"}, HEAD + "tx t(n: Int) { input source { from: Sender, datum_is: Var, } output { to: Receiver, amount: Ada(source.x), } }"))
     out.append(({"name": "utxo_ref_param_prop"}, HEAD + "tx t(r: UtxoRef) { reference x { ref: r, } output { to: Receiver, amount: Ada(1), datum: r.tx_hash, } }"))
     out.append(({"name": "anyasset_param_prop"}, HEAD + "tx t(a: AnyAsset) { output { to: Receiver, amount: a, datum: a.amount, } }"))
+    # two things of one kind whose names differ only in letter case, both used (the IR folds the case of names)
+    twins = {
+        "input": "tx t(n: Int) { input Source { from: Sender, min_amount: Ada(n), } input source { from: Receiver, min_amount: Ada(1), } output { to: Receiver, amount: Source + source - fees, } }",
+        "output": "tx t(n: Int) { input s { from: Sender, min_amount: fees + min_utxo(Change) + min_utxo(change), } output Change { to: Sender, amount: min_utxo(Change), } output change { to: Sender, amount: s - fees - min_utxo(Change), } }",
+        "local": "tx t(n: Int) { locals { Amt: n + 1, amt: n + 2, } output { to: Receiver, amount: Ada(Amt) + Ada(amt), } }",
+        "reference": "tx t(n: Int) { reference Rf { ref: 0x" + "07" * 32 + "#1, } reference rf { ref: 0x" + "07" * 32 + "#2, } output { to: Receiver, amount: Ada(n), } }",
+        "tx": "tx t(n: Int) { output { to: Receiver, amount: Ada(n), } } tx T(n: Int) { output { to: Sender, amount: Ada(n), } }",
+        "party": "party sender; tx t(n: Int) { input s { from: Sender, min_amount: Ada(n), } output { to: sender, amount: s - fees, } }",
+        "policy": "policy pol = 0x" + "22" * 28 + "; tx t(n: Int) { mint { amount: AnyAsset(Pol, \"a\", n) + AnyAsset(pol, \"a\", n), } }",
+        "asset": "asset tok = 0x" + "22" * 28 + ".\"b\"; tx t(n: Int) { output { to: Receiver, amount: Tok(n) + tok(n), } }",
+        "type": "type rec { f1: Int, } tx t(n: Int, b: Bytes) { output { to: Receiver, amount: Ada(1), datum: Rec { f1: n, f2: b, }, } output { to: Sender, amount: Ada(1), datum: rec { f1: n, }, } }",
+        "env": None,
+        "field": "type Two { f: Int, F: Int, } tx t(n: Int) { output { to: Receiver, amount: Ada(1), datum: Two { f: n, F: n + 1, }, } }",
+        "case": "type Cs { On { v: Int, }, on { v: Int, }, } tx t(n: Int) { output { to: Receiver, amount: Ada(1), datum: Cs::on { v: n, }, } }",
+    }
+    for kind, body in twins.items():
+        if body is None:
+            out.append(({"name": "case_twin_env"}, HEAD.replace("env { e_int: Int, }", "env { e_int: Int, E_Int: Int, }") +
+                        "tx t(n: Int) { output { to: Receiver, amount: Ada(e_int) + Ada(E_Int), } }"))
+        else:
+            out.append(({"name": "case_twin_" + kind}, HEAD + body))
     # names of every kind in the positions of top-level definitions, with the defined thing used by a transaction
     head2 = HEAD.replace("env { e_int: Int, }", "env { e_int: Int, e_bytes: Bytes, }")
     kinds = {"env_bytes": "e_bytes", "env_int": "e_int", "party": "Sender", "policy": "Pol", "asset": "Tok", "type": "Rec",
